@@ -19,7 +19,7 @@ import traceback
 from pathlib import Path
 
 VERIF = Path(__file__).resolve().parent.parent
-LEAN = VERIF / "lean"
+LEAN = Path(os.environ.get("VERIF_LEAN_DIR", VERIF / "lean"))  # override only for developing the model in a scratch copy
 EVID = Path(os.environ.get("VERIF_EVIDENCE_DIR", VERIF / "evidence"))  # override only for experiments against scratch worktrees
 REPLAYS = EVID / "replays"
 CORPUS = VERIF / "corpus"
